@@ -206,6 +206,9 @@ def run_random(cfg, seed, steps, weights=None, maxcmd=12, extra=None):
                 if item[0] == 'relead':
                     relead_phase(cl, rng, trace, state)
                     continue
+                if item[0] == 'shrink':
+                    shrink_phase(cl, rng, trace, state)
+                    continue
                 if item[0] == 'votenew':
                     votenew_phase(cl, rng, trace, state)
                     continue
@@ -550,6 +553,67 @@ def relead_phase(cl, rng, trace, state):
                 pass
         if N[L].obj._isLeader():
             break
+
+
+def shrink_phase(cl, rng, trace, state):
+    """directed schedule: a leader is sending its snapshot in pieces to a follower that is behind; most pieces have arrived
+    when the leader applies one or two more commands and compacts again - the transfer starts over with the newer snapshot,
+    which (ballast by parity, cfg pad='parity') may be much shorter than what the follower has already received."""
+    N = cl.nodes
+
+    def do(act):
+        if cl.applicable(act):
+            trace.append(cl.step(act))
+            return True
+        return False
+    ids = sorted(n for n in N if N[n].alive)
+
+    def sending(l):
+        ser = getattr(N[l].obj, '_SyncObj__serializer')
+        return sorted(getattr(x, 'id', str(x)) for x in getattr(ser, '_Serializer__transmissions', {}))
+    L = m = None
+    for r in range(12):
+        ls = [(N[n].obj.raftCurrentTerm, n) for n in ids if N[n].voter and N[n].obj._isLeader()]
+        if ls:
+            L = max(ls)[1]
+            tg = [x for x in sending(L) if x in ids]
+            if tg:
+                m = tg[0]
+                break
+            do(('Tick', L, 'h'))
+            for x in ids:
+                if x != L:
+                    do(('Deliver', x, L))
+        else:
+            do(('Tick', rng.choice(ids), 'j'))
+            for (i, j) in sorted(cl.net.chan):
+                while do(('Deliver', i, j)):
+                    pass
+    if m is None:
+        return
+    others = [x for x in ids if x not in (L, m)]
+    for rnd in range(rng.choice([1, 2, 3])):          # pieces of the first snapshot arrive (replies are held back)
+        while do(('Deliver', L, m)):
+            pass
+        if rnd < 2:
+            do(('Tick', L, 'h'))
+    for k in range(rng.choice([1, 1, 2])):            # the leader's state moves on ...
+        state['ncmd'] += 1
+        do(('Submit', L, 'c%d' % state['ncmd'], {'kind': 'op'}))
+    for _ in range(3):
+        do(('Tick', L, 'h'))
+        for x in others:
+            while do(('Deliver', L, x)):
+                pass
+            while do(('Deliver', x, L)):
+                pass
+    do(('Compact', L))                                # ... and it takes a new snapshot
+    for _ in range(4):
+        do(('Tick', L, 'h'))
+        while do(('Deliver', L, m)):
+            pass
+        while do(('Deliver', m, L)):
+            pass
 
 
 def votenew_phase(cl, rng, trace, state):
